@@ -124,6 +124,16 @@ def main():
                                                       "tq": s["tq"], "lp": s["lp"], "lq": s["lq"], "progeny_index": i,
                                                       "impl": a, "model": b},
                                          key=dict(feature(s), site=fn))
+            # PEDERR = fraction of steps failing the validity test, with the right gamete's tau / lambda for the known parent
+            if "pederr" in o:
+                n_steps = len(s["row"])
+                for name, got in zip(("valid", "duop", "duoq"), o["pederr"]):
+                    want = sum(1 for v in s[name] if not v) / n_steps
+                    ck.evaluations += 1
+                    if abs(got - want) > 1e-12:
+                        ck.violation("pederr", {"parents_known": {"valid": "both", "duop": "p only", "duoq": "q only"}[name], "Gp": s["Gp"], "Gq": s["Gq"],
+                                                "tp": s["tp"], "tq": s["tq"], "lp": s["lp"], "lq": s["lq"], "impl": got, "model": want},
+                                     key=dict(feature(s), site="PedigreeAllelesMultiTrace.incongruence", known=name))
     if trios:
         s = trios[len(trios) // 2]
         ck.sample({"kind": "trio-walk", "instance": {k: s[k] for k in ("K", "Gp", "Gq", "tp", "tq", "lp", "lq", "ep", "eq", "f")},
